@@ -435,7 +435,7 @@ func runC18(c *CaseCtx) {
 func init() {
 	register(&Check{
 		ID: "C14", Level: "exploration",
-		NCases:       func(t string) int { return tier(t, 64, 900) },
+		NCases:       func(t string) int { return tier(t, 64, 500) },
 		Run:          runC14,
 		Workers:      8,
 		CaseDeadline: 8 * time.Minute, // wall-clock watchdog only: its firing is inconclusive unless the dump shows a lock deadlock
@@ -453,7 +453,7 @@ func init() {
 	})
 	register(&Check{
 		ID: "C17", Level: "exploration", LeakClass: "merge-concurrent",
-		NCases:       func(t string) int { return tier(t, 48, 250) },
+		NCases:       func(t string) int { return tier(t, 48, 150) },
 		Run:          runC17,
 		Workers:      8,
 		CaseDeadline: 8 * time.Minute, // wall-clock watchdog only (see C14)
@@ -470,7 +470,7 @@ func init() {
 	})
 	register(&Check{
 		ID: "C18", Level: "exploration",
-		NCases:  func(t string) int { return tier(t, 96, 3000) },
+		NCases:  func(t string) int { return tier(t, 96, 1500) },
 		Run:     runC18,
 		Workers: 8,
 		Rule: "[also: 1 case in 8 is a quiescent Backup of a large-geometry history (opened and compared with the model); a quarter of the RAM-mode cases run Merge in a loop next to writers and Backups over a few dozen sealed segments (list-free scripts)] case = 0-8 writer goroutines execute a pre-generated script indexed by an in-database sequence key (so the state after n commits is the deterministic S(n)) while Backup(dir) is called 1-3 times into fresh directories, under the race detector, in all index modes and RWModes; " +
